@@ -2,7 +2,7 @@ import Driver.Util
 import Driver.C27
 import Aurora.Model.RouteProto
 /-! Driver for C28: runs the route-protocol model's handlers on the op lines of the harness.
-    Network-level ops (`net`, `nfind`, `nrun`, `nquiesce`, `nrelay`) drive N real services on the Go
+    Network-level ops (`net`, `nfind`, `nrun`, `nquiesce`, `nrelay`, `nlink`, `nunlink`) drive N real services on the Go
     side only (impl-side invariant oracle); here they answer `ok`. -/
 namespace Driver.C28
 open Aurora.RouteTable Aurora.RouteProto
@@ -130,6 +130,14 @@ def step (st : St) (line : List String) : St × String :=
     match a.toNat? with
     | some _ => (st, netAns st)
     | none => (st, "bad-op")
+  | ["nlink", a, b] =>
+    match a.toNat?, b.toNat? with
+    | some _, some _ => (st, netAns st)
+    | _, _ => (st, "bad-op")
+  | ["nunlink", a, b] =>
+    match a.toNat?, b.toNat? with
+    | some _, some _ => (st, netAns st)
+    | _, _ => (st, "bad-op")
   | ["nrelay", a, b, c] =>
     match a.toNat?, b.toNat?, c.toNat? with
     | some _, some _, some _ => (st, netAns st)
@@ -193,6 +201,34 @@ def step (st : St) (line : List String) : St × String :=
               (upd (findTimeout st' dest fwd),
                if nx = "-" then s!"next=- finds={packetsStr out}" else "inadmissible-next offer=-")
         | _, _ => (st, "no-annotation")
+      | _, _, _, _ => (st, "bad-op")
+    | ["relayd", kind, from_, dest, path, rnd, rfrom, rdest, rut, rpaths, rul] =>
+      match from_.toNat?, dest.toNat?, parsePath path, hexNats rnd with
+      | some from_, some dest, some path, some script =>
+        match rfrom.toNat?, rdest.toNat?, rut.toInt?, parsePaths rpaths, parseList rul with
+        | some rfrom, some rdest, some rut, some rps, some rul =>
+          if (kind != "c" && kind != "p") || from_ ≥ 6 || dest ≥ 6 || rfrom ≥ 6 || rdest ≥ 6 then (st, "bad-op") else
+          match (annVal ann "c").bind parsePairs, annVal ann "n" with
+          | some cands, some nx =>
+            if !candsOk s cands then (st, "inadmissible-candidates") else
+            if dest = s.self then (st, "local") else
+            -- whether a discovery is started (then the response is delivered while FindRoute waits)
+            let first := relayNext s.env s.self s.st dest path
+            let o := mkOracle cands script
+            let d := first.isEmpty && (startFind s.env o s.self s.st dest).isSome
+            let c := relayOrFind s.env o s.self s.st dest path
+              (some (rfrom, { dest := rdest, paths := rps, utype := rut, ulist := rul })) 0
+            let dS := if d then "1" else "0"
+            if c.offer.isEmpty then
+              (upd c.st, if nx = "-" then s!"next=- d={dS} finds={packetsStr c.out}" else "inadmissible-next offer=-")
+            else
+              match nx.toNat? with
+              | some nx =>
+                if c.offer.contains nx then (upd c.st, s!"next={nx} d={dS} finds={packetsStr c.out}")
+                else (upd c.st, s!"inadmissible-next offer={listStr c.offer}")
+              | none => (upd c.st, s!"inadmissible-next offer={listStr c.offer}")
+          | _, _ => (st, "no-annotation")
+        | _, _, _, _, _ => (st, "bad-op")
       | _, _, _, _ => (st, "bad-op")
     | ["pgc"] => (upd (pendGcAll s.st), "ok")
     | ["dump"] => (st, dumpNode s.st)
